@@ -1,6 +1,7 @@
 import ElaVerif.Model.Node
 import ElaVerif.Lemmas.Node
 import ElaVerif.Gen.C30
+import ElaVerif.Model.Irr
 /-!
   C30 — irreversible blocks are never detached.
 
@@ -12,7 +13,7 @@ import ElaVerif.Gen.C30
   the source by regenerated facts, not by execution.
 -/
 namespace ElaVerif.C30
-open ElaVerif.Index ElaVerif.Node
+open ElaVerif.Index ElaVerif.Node ElaVerif.Irr
 
 /-- **C30 (guard).** While the guard says "irreversible", a side-chain block never changes the
     active chain, whatever its height. -/
@@ -57,56 +58,39 @@ theorem C30_depth_bound (s : NState) (cur d : Nat) (hg : cur > s.P.guardFrom)
 
 /-! ### the last irreversible height moves forward only -/
 
-structure Irr where
-  lih : Nat
-  dposStart : Nat
-  dposWork : Nat
-  dpos : Bool
-deriving DecidableEq, Repr
+theorem applyDpos_spec (st : Irr) (height : Nat) (ho adv : Bool)
+    (hinv : st.lih ≤ st.dposStart) (hh : st.dposStart ≤ height) (hmax : height + 1 < 2 ^ 32) :
+    st.lih ≤ (applyDpos st height ho adv).lih ∧ (applyDpos st height ho adv).lih ≤ (applyDpos st height ho adv).dposStart ∧
+      (applyDpos st height ho adv).dposStart ≤ height + 1 := by
+  have m1 : (height + 1) % 2 ^ 32 = height + 1 := Nat.mod_eq_of_lt hmax
+  have m2 : (st.dposStart + 1) % 2 ^ 32 = st.dposStart + 1 := Nat.mod_eq_of_lt (by omega)
+  cases ho <;> cases adv <;> simp [applyDpos, m1, m2] <;> omega
 
-/-- `State.tryUpdateLastIrreversibleHeight(height)`. The assignments sit in `History.Append` closures, which
-    run only when the height is committed: **both conditions of the DPoS branch are evaluated on the
-    state before any of the closures ran**, then the closures run in order. So at the PoW → DPoS
-    hand-over (`height == DPOSWorkHeight+1`) with an old `DPOSStartHeight` at least 6 below, the result is
-    `DPOSStartHeight = LastIrreversibleHeight = height + 1` — one above the block being processed.
-    (`height ≥ 6` so that the uint32 subtraction of the first branch does not wrap.) -/
-def tryUpdate (revertStart : Nat) (st : Irr) (height : Nat) : Irr :=
-  if height < revertStart then st
-  else if st.lih = 0 then { st with lih := height - 6, dposStart := height - 6 }
-  else if st.dpos then
-    let handOver := st.dposWork ≠ 0 ∧ height = st.dposWork + 1
-    let advance := height - st.dposStart ≥ 6
-    let st1 := if handOver then { st with dposStart := height } else st
-    if advance then { st1 with dposStart := st1.dposStart + 1, lih := st1.dposStart + 1 } else st1
-  else st
-
-/-- **C30 (monotone).** On the forward path (`height` at least the recorded value) the last irreversible
-    height never decreases and the invariant `lih ≤ DPOSStartHeight` is kept. It stays at or below
-    `height + 1` — not `height`: see `C30_lih_above_height`. -/
+/-- **C30 (monotone).** On the forward path (block height at least `DPOSStartHeight`, at least 6, below 2³²−1)
+    the last irreversible height never decreases and `lih ≤ DPOSStartHeight ≤ height + 1` is kept. The
+    bound is `height + 1`, not `height`: see `C30_lih_above_height`. -/
 theorem C30_monotone (rs : Nat) (st : Irr) (height : Nat)
-    (hinv : st.lih ≤ st.dposStart) (hh : st.lih ≤ height) :
+    (hinv : st.lih ≤ st.dposStart) (hh : st.dposStart ≤ height) (h6 : 6 ≤ height) (hmax : height + 1 < 2 ^ 32) :
     st.lih ≤ (tryUpdate rs st height).lih ∧ (tryUpdate rs st height).lih ≤ (tryUpdate rs st height).dposStart ∧
-      (tryUpdate rs st height).lih ≤ height + 1 := by
-  unfold tryUpdate
-  split
-  · exact ⟨Nat.le_refl _, hinv, by omega⟩
-  · split
-    · simp only; omega
-    · split
-      · simp only
-        split
-        · split
-          · simp only; omega
-          · simp only; omega
-        · split
-          · simp only; exact ⟨Nat.le_refl _, hh, by omega⟩
-          · exact ⟨Nat.le_refl _, hinv, by omega⟩
-      · exact ⟨Nat.le_refl _, hinv, by omega⟩
+      (tryUpdate rs st height).dposStart ≤ height + 1 := by
+  have h6' : sub32 height 6 = height - 6 := by unfold sub32; omega
+  unfold tryUpdate tryUpdateE
+  by_cases c0 : height < rs
+  · simp only [c0, if_true]
+    exact ⟨Nat.le_refl _, hinv, by omega⟩
+  · by_cases c1 : st.lih = 0
+    · simp only [c0, c1, if_false, if_true, h6']
+      refine ⟨by omega, Nat.le_refl _, by omega⟩
+    · by_cases c2 : st.dpos = true
+      · simp only [c0, c1, c2, if_false, if_true]
+        exact applyDpos_spec st height _ _ hinv hh hmax
+      · simp only [c0, c1, c2, if_false, Bool.false_eq_true]
+        exact ⟨Nat.le_refl _, hinv, by omega⟩
 
 /-- the recorded last irreversible height can exceed the height of the block that set it (hand-over
     block with a stale `DPOSStartHeight`): the full statement "lih ≤ best height" is false of the code -/
 theorem C30_lih_above_height :
-    ¬ (∀ (rs : Nat) (st : Irr) (height : Nat), st.lih ≤ st.dposStart → st.lih ≤ height →
+    ¬ (∀ (rs : Nat) (st : Irr) (height : Nat), st.lih ≤ st.dposStart → st.dposStart ≤ height →
         (tryUpdate rs st height).lih ≤ height) := by
   intro h
   have := h 10 { lih := 14, dposStart := 14, dposWork := 30, dpos := true } 31 (by decide) (by decide)
@@ -115,17 +99,40 @@ theorem C30_lih_above_height :
 
 /-- over any strictly increasing run of block heights the last irreversible height is non-decreasing -/
 theorem C30_monotone_run (rs : Nat) (hs : List Nat) (st : Irr)
-    (hinv : st.lih ≤ st.dposStart) (hh : ∀ h ∈ hs, st.lih ≤ h) (hsorted : hs.Pairwise (· < ·)) :
+    (hinv : st.lih ≤ st.dposStart) (hh : ∀ h ∈ hs, st.dposStart ≤ h ∧ 6 ≤ h ∧ h + 1 < 2 ^ 32)
+    (hsorted : hs.Pairwise (· < ·)) :
     st.lih ≤ (hs.foldl (tryUpdate rs) st).lih := by
   induction hs generalizing st with
   | nil => exact Nat.le_refl _
   | cons h r ih =>
     simp only [List.foldl_cons]
-    have hstep := C30_monotone rs st h hinv (hh h (List.mem_cons_self ..))
-    have hle : ∀ x ∈ r, (tryUpdate rs st h).lih ≤ x := fun x hx => by
+    have h0 := hh h (List.mem_cons_self ..)
+    have hstep := C30_monotone rs st h hinv h0.1 h0.2.1 h0.2.2
+    have hle : ∀ x ∈ r, (tryUpdate rs st h).dposStart ≤ x ∧ 6 ≤ x ∧ x + 1 < 2 ^ 32 := fun x hx => by
       have := (List.pairwise_cons.mp hsorted).1 x hx
+      have := hh x (List.mem_cons_of_mem _ hx)
       omega
     exact Nat.le_trans hstep.1 (ih _ hstep.2.1 hle (List.pairwise_cons.mp hsorted).2)
+
+/-- **Full statement (false) once rollbacks are in the history.** "The recorded height never decreases while
+    the node moves forward": after `RollbackTo` the advance entry's rollback closure has restored
+    `DPOSStartHeight` but not `LastIrreversibleHeight`; the next forward block recomputes it from
+    `DPOSStartHeight` and lowers it (15 → 14). Same input on the real State: corpus/C30/decrease_after_rollback.ops
+    (known finding C30-lih-decreases-after-rollback, a consequence of C21-last-irreversible-height). -/
+theorem C30_decrease_after_rollback_false :
+    ¬ (∀ (rs : Nat) (h : Hist) (back next : Nat), back < next → 6 ≤ next →
+        (rollbackTo h back).st.lih ≤ (step rs (rollbackTo h back) next).st.lih) := by
+  intro hall
+  have := hall 6 ([16, 17, 18, 19, 20].foldl (step 6) { st := { lih := 12, dposStart := 13, dposWork := 0, dpos := true } })
+    18 19 (by decide) (by decide)
+  revert this
+  decide
+
+/-- rolling a height back never raises the last irreversible height; it restores it only for the
+    initialising entry — the other two rollback closures put back `DPOSStartHeight` alone -/
+theorem C30_undo_le (st : Irr) (r : Rec) (h : r.oriLih ≤ st.lih) : (undo st r).lih ≤ st.lih := by
+  unfold undo
+  cases r.entry <;> simp [h]
 
 example : (tryUpdate 10 { lih := 0, dposStart := 0, dposWork := 0, dpos := true } 20).lih = 14 := by decide
 example : (tryUpdate 10 { lih := 14, dposStart := 14, dposWork := 0, dpos := true } 21).lih = 15 := by decide
